@@ -9,8 +9,14 @@ from .cfg import build_cfg
 from .index import AnchorMissing
 
 
-def fn_cfg(ctx, rel, qual, fallible=None, with_is_scope=True):
+def fn_cfg(ctx, rel, qual, fallible=None, with_is_scope=True, roles=None):
+    """Function, its CFG and its display name.  With `roles` (see astutil.bind_roles) the locals are first renamed to
+    their role names, so that the rules below can name them without depending on what the source calls them."""
     fn = ctx.repo.func(rel, qual)
+    if roles:
+        from .astutil import bind_roles, canonicalise
+
+        fn = canonicalise(fn, bind_roles(fn, roles, f"{rel}:{qual}"))
     g = build_cfg(fn, fallible=fallible, with_is_scope=with_is_scope)
     ctx.fact(len(g.nodes))
     return fn, g, f"{rel}:{qual}"
